@@ -247,6 +247,8 @@ impl WTClient {
 
             // DISCUSS: It may be nice to independently compute the slots and compare
             tower.available_slots = available_slots;
+            // An accepted appointment is not pending any more (the database drops the reference along with storing the receipt)
+            tower.pending_appointments.remove(&locator);
 
             self.dbm
                 .store_appointment_receipt(tower_id, locator, available_slots, receipt)
@@ -301,6 +303,8 @@ impl WTClient {
             if !tower.invalid_appointments.insert(appointment.locator) {
                 return;
             }
+            // An invalid appointment is not pending any more (the database drops the reference along with storing it)
+            tower.pending_appointments.remove(&appointment.locator);
 
             self.dbm
                 .store_invalid_appointment(tower_id, appointment)
